@@ -4,6 +4,7 @@ package main
 import (
 	"fmt"
 	"os"
+	"runtime/debug"
 	"sort"
 
 	"github.com/frankkopp/FrankyGo/verif/eng"
@@ -24,6 +25,7 @@ func main() {
 		os.Exit(2)
 	}
 	eng.Quiet()
+	debug.SetGCPercent(400)
 	fn, ok := registry[os.Args[1]]
 	if !ok {
 		fmt.Fprintln(os.Stderr, "unknown check", os.Args[1])
